@@ -13,6 +13,7 @@ import (
 	"fmt"
 	"io"
 	"log/slog"
+	"os"
 	"strings"
 	"sync"
 	"sync/atomic"
@@ -142,7 +143,8 @@ func (cs *caseState) traceCopy() []string {
 // violate records a violation of property prop. Only the property under
 // check counts; what other monitors see is tallied for information.
 func (cs *caseState) violate(prop, key, what string, detail any) {
-	if prop != cs.prop {
+	if prop != cs.prop && os.Getenv("VERIF_OBSERVE_ALL") == "" {
+		// VERIF_OBSERVE_ALL=1 is a debugging aid: report what the other monitors see as well.
 		cs.r.Count("other_property_observation."+key, 1)
 		return
 	}
@@ -374,6 +376,10 @@ type smEntranceRec struct {
 	h    uint64
 	r    uint32
 	resp tmeil.RoundEntranceResponse
+	// live: the voting position last persisted, read after the response arrived, was not
+	// beyond the entered round, so the mirror still held that round when it answered
+	// (positions only move forward). False also when that is merely unknown.
+	live bool
 }
 
 type smEnterCmd struct {
@@ -409,11 +415,11 @@ type node struct {
 	m      *tmmirror.Mirror
 	wd     *gwatchdog.Watchdog
 
-	gossipOut  chan tmelink.NetworkViewUpdate
-	smViewOut  chan tmeil.StateMachineRoundView
-	smCmds     chan smEnterCmd
+	gossipOut chan tmelink.NetworkViewUpdate
+	smViewOut chan tmeil.StateMachineRoundView
+	smCmds    chan smEnterCmd
 	// parkReq asks a reader goroutine to stop reading until the channel it receives is closed
-	parkReq chan chan struct{}
+	parkReq    chan chan struct{}
 	smEntrance chan tmeil.StateMachineRoundEntrance
 	replayIn   chan tmelink.ReplayedHeaderRequest
 	lagOut     chan tmelink.LagState
@@ -689,7 +695,11 @@ func (n *node) consumeSM(ctx context.Context, ch <-chan tmeil.StateMachineRoundV
 				res.ok = true
 				s := n.seq.Add(1)
 				n.rmu.Lock()
-				n.smLog = append(n.smLog, recvSM{seq: s, entrance: &smEntranceRec{h: cmd.re.H, r: cmd.re.R, resp: res.resp}})
+				n.cs.mu.Lock()
+				nhr, have := n.cs.lastNHR, n.cs.haveNHR
+				n.cs.mu.Unlock()
+				live := have && (nhr[0] < cmd.re.H || (nhr[0] == cmd.re.H && nhr[1] <= uint64(cmd.re.R)))
+				n.smLog = append(n.smLog, recvSM{seq: s, entrance: &smEntranceRec{h: cmd.re.H, r: cmd.re.R, resp: res.resp, live: live}})
 				n.rmu.Unlock()
 			case <-ctx.Done():
 			}
